@@ -204,7 +204,7 @@ func sliceSources(v ssa.Value, seen map[ssa.Value]bool, elems *[]ssa.Value, appe
 
 func runC20(c *Ctx) {
 	p, r := c.P, c.R
-	r.Explanation = "Decides that Broker.Reopen reaches every node and carries every failure: the per-graph reopen is applied to every value of the whole graphs map (directly or through a snapshot slice filled by a full range over the map), the per-graph reopen ranges the roots with a callback that always continues and starts the per-node walk at each pipeline's root, the per-node step invokes Reopen on the node and then visits every successor (loops whose only exits are exhaustion or an error return); and no error on the chain Node.Reopen -> doReopen -> reopen -> Broker.Reopen is dropped or replaced, with the all-nil path returning nil. sync.Map.Range visiting every key is trusted (A4). Every nil return of Broker.Reopen walked all graphs; errors merged into a variable that is later overwritten are reported path-sensitively. Also: every successful return of the per-node step lies behind the successor loop, and no error of foreign origin is handed to multierror.Append unwrapped (it flattens, and an empty *multierror.Error vanishes). C20.commit: registrations store the chain linked from the currently registered nodes. C20.carry (strict): an error returned only under a condition other than its nil test counts as dropped. C20.all also: graphMap.Range is sync.Map.Range."
+	r.Explanation = "Decides that Broker.Reopen reaches every node and carries every failure: the per-graph reopen is applied to every value of the whole graphs map (directly or through a snapshot slice filled by a full range over the map), the per-graph reopen ranges the roots with a callback that always continues and starts the per-node walk at each pipeline's root, the per-node step invokes Reopen on the node and then visits every successor (loops whose only exits are exhaustion or an error return); and no error on the chain Node.Reopen -> doReopen -> reopen -> Broker.Reopen is dropped or replaced, with the all-nil path returning nil. sync.Map.Range visiting every key is trusted (A4). Every nil return of Broker.Reopen walked all graphs; errors merged into a variable that is later overwritten are reported path-sensitively. Also: every successful return of the per-node step lies behind the successor loop, and no error of foreign origin is handed to multierror.Append unwrapped (it flattens, and an empty *multierror.Error vanishes). C20.commit: registrations store the chain linked from the currently registered nodes. C20.carry (strict): an error returned only under a condition other than its nil test counts as dropped. C20.all also: graphMap.Range is sync.Map.Range. C20.all follows a wrapper: when the walk lives in a helper of the Broker, the helper is examined and the exported method owes Reopen:own-walk."
 	r.NotDecided = []string{"sync.Map.Range visiting every key (A4)", "behaviour of the nodes' own Reopen"}
 	c.errControls()
 	c.errStrict = true // "carries that failure"
@@ -214,7 +214,25 @@ func runC20(c *Ctx) {
 	}
 	tb := p.NewTerms(nil)
 	// --- C20.all: Broker.Reopen
-	calls := callsTo(reopen, func(n string, cc *ssa.CallCommon) bool { return n == "(*eventlogger.graph).reopen" })
+	isGraphReopen := func(n string, cc *ssa.CallCommon) bool { return n == "(*eventlogger.graph).reopen" }
+	calls := callsTo(reopen, isGraphReopen)
+	if len(calls) == 0 {
+		// the walk may live in a helper of the Broker which the exported method wraps: the helper is then
+		// the function examined below, and the wrapper owes the walk on every path of its own
+		// (C20.all / C04.seq Reopen:own-walk)
+		var helpers []ssa.CallInstruction
+		for _, ci := range callsTo(reopen, func(n string, cc *ssa.CallCommon) bool {
+			sc := cc.StaticCallee()
+			return sc != nil && sc.Blocks != nil && PkgPathOf(sc) == PkgRoot && len(callsTo(sc, isGraphReopen)) == 1
+		}) {
+			helpers = append(helpers, ci)
+		}
+		if len(helpers) == 1 {
+			c.ruleOwnWalk("C20.all", reopen, helpers[0])
+			reopen = helpers[0].Common().StaticCallee()
+			calls = callsTo(reopen, isGraphReopen)
+		}
+	}
 	if len(calls) != 1 {
 		r.Und("C20.all", "(*Broker).Reopen", p.Pos(reopen.Pos()), fmt.Sprintf("expected one call of (*graph).reopen, found %d", len(calls)))
 		return
@@ -567,4 +585,29 @@ func (c *Ctx) accumulateRule(rule string, fn *ssa.Function) {
 		r.Und(rule, construct, p.Pos(fn.Pos()), "no fallible call found in the range callback")
 	}
 	_ = types.Typ
+}
+
+// ruleOwnWalk (C20.all / C04.seq Reopen:own-walk): when the exported Reopen wraps a helper that does
+// the walk, every return of the wrapper lies behind ITS OWN call of that helper (or hands back the
+// context's error). A return that answers with the outcome of somebody else's walk — a call that was
+// already in progress and may be past some nodes — reports nodes as reopened that were last reopened
+// before this call began: two successful Reopens then leave a node reopened once, which no sequential
+// order of the two calls produces.
+func (c *Ctx) ruleOwnWalk(rule string, wrapper *ssa.Function, helper ssa.CallInstruction) {
+	p, r := c.P, c.R
+	n := 0
+	for _, ret := range Returns(wrapper) {
+		n++
+		rv := RetVals(ret)
+		own := helper.Block() == ret.Block() || helper.Block().Dominates(ret.Block())
+		if !own && len(rv) == 1 {
+			if call, ok := rv[0].(*ssa.Call); ok && call.Call.IsInvoke() && call.Call.Method.Name() == "Err" && typeShort(call.Call.Value.Type()) == "context.Context" {
+				own = true
+			}
+		}
+		r.Check(own, rule, "(*Broker).Reopen:own-walk", p.InstrPos(ret), "the return lies behind this call's own walk (or hands back the context's error)", "Reopen returns on a path that does not pass its own call of "+calleeName(helper.Common())+": the caller is answered with the outcome of a walk that began before its call (nodes already passed are not reopened again), so two successful Reopens can leave a node reopened once — no sequential order of the calls does that")
+	}
+	if n == 0 {
+		r.Und(rule, "(*Broker).Reopen:own-walk", p.Pos(wrapper.Pos()), "no return found")
+	}
 }
